@@ -117,6 +117,7 @@ def rule_position_semantic(src, rep, counts):
     from ..par import pmap
     from ..fold import new_interp
     from ..winmodel import Rig
+    from ..objinterp import NativeFunc
     from .. import termmodel
     it = new_interp(src)
     f = src.func("window", "CursorAwareWindow.get_cursor_position")
@@ -126,14 +127,27 @@ def rule_position_semantic(src, rep, counts):
         if rep.tier == "quick" and (ri + ai + {0: 0, 1: 1, 3: 3, "2nd": 2, "2nd+5th": 5, "last": 6}[errs] + (1 if eight else 0) + (1 if cb else 0) + len(af) + len(enc)) % 4:
             continue
         jobs.append((rp, eight, ah, af, errs, cb, enc))
+    # extra_bytes_callback is a public attribute: what counts is the callback in place when the query is made
+    for (ai, ah), cbmode in itertools.product(enumerate(AHEAD), ("attached after construction", "replaced after construction", "removed after construction")):
+        jobs.append((REPORTS[ai % len(REPORTS)], bool(ai % 2), ah, AFTER[ai % len(AFTER)], 0, cbmode, "utf-8"))
 
     def one(job):
         rp, eight, ah, af, errs, cb, enc = job
         scr = termmodel.Screen(4, 10)
+        old_calls = []
         try:
-            rig = Rig(it, "CursorAwareWindow", 4, 10, screen=scr, init_kwargs={"extra_bytes_callback": "record"} if cb else {}, encoding=enc)
+            rig = Rig(it, "CursorAwareWindow", 4, 10, screen=scr, init_kwargs={"extra_bytes_callback": "record"} if cb is True else
+                      {"extra_bytes_callback": NativeFunc(lambda a, k: old_calls.append(a[0]), "the first callback")} if isinstance(cb, str) and not cb.startswith("attached") else {},
+                      encoding=enc)
         except AnalysisError as e:
             return ("error", str(e))
+        cbmode = cb if isinstance(cb, str) else None
+        if cbmode is not None:
+            if "extra_bytes_callback" not in rig.win.fields:
+                return ("error", "CursorAwareWindow keeps no public attribute extra_bytes_callback")
+            rig.win.fields["extra_bytes_callback"] = None if cbmode.startswith("removed") else \
+                NativeFunc(lambda a, k: rig.extra.append(a[0]), "the callback in place at the time of the query")
+            cb = not cbmode.startswith("removed")
         scr.report, scr.eight_bit = rp, eight
         rig.ahead, rig.after = list(ah), list(af)
         if isinstance(errs, int):
@@ -144,7 +158,7 @@ def rule_position_semantic(src, rep, counts):
         desc = "input %r, report %s%d;%dR, then %r%s%s, stream encoding %s" % (
             ah, "0x9b " if eight else "ESC[", rp[0], rp[1], af,
             ("; %d read(s) fail with OSError first" % errs if errs else "") if isinstance(errs, int) else "; the %s read fails with OSError" % errs,
-            "" if cb else "; no extra_bytes_callback", enc)
+            ("" if cb else "; no extra_bytes_callback") if cbmode is None else "; extra_bytes_callback %s" % cbmode, enc)
         try:
             r = rig.call("get_cursor_position")
         except AnalysisError as e:
@@ -163,6 +177,8 @@ def rule_position_semantic(src, rep, counts):
         if r != ("ok", (rp[0] - 1, rp[1] - 1)):
             return ("U2-returns-reported-position-zero-based", desc, "returned %s, the report says row %d column %d (one-based)" % (r, rp[0], rp[1]))
         got = rig.extra
+        if old_calls:
+            return ("U4-preceding-bytes-to-callback-in-order", desc, "the callback that was replaced received %r" % (old_calls,))
         if any(not isinstance(x, bytes) for x in got):
             return ("U4-preceding-bytes-to-callback-in-order", desc, "the callback received %r, not bytes" % (got,))
         if b"".join(got) != ah.encode(enc) or (not ah and got):
